@@ -19,7 +19,8 @@ TRUSTED = ["z3 5.1.0 / cvc5 1.0.3", "pyvc encoding of Python semantics (DESIGN 2
            "callee contracts proved under C01 (contracts/common_c.py): BpSeq.__regions, BpSeq.__make_dot_bracket, BpSeq.fcfs"]
 ASSUMPTIONS = [
     "levels30(self), degree30(self) (see props/C13.py): the contract covers structures in which no stem crosses more than 29 others",
-    "esum_definition, numeral_definition(_all), degree30_definition (definitions); split3, int_str_roundtrip (assumed facts about "
+    "esum_definition, numeral_definition(_all), degree30_definition, times_definition (times(x, y) == x * y: the product in the "
+    "objective coefficients is kept uninterpreted inside quantified invariants) (definitions); split3, int_str_roundtrip (assumed facts about "
     "str.split / int() / str()); len.set (set cardinality as an uninterpreted non-negative function): as in props/C13.py",
     "NOT PROVED (mathematical step, stated here as an explicit assumption of the property's optimality clause): "
     "L-enc: every proper assignment O' with levels < max_order is a feasible 0/1 point of the model whose objective value is "
